@@ -51,6 +51,10 @@ class OneShot:
 class SizedOneShot(OneShot):
     """a Sized, self-iterating, one-shot object that is NOT a Collection (no __contains__)"""
     def __len__(self): return len(self._i) - self.consumed
+class CollOneShot(SizedOneShot):
+    """a one-shot ITERATOR that also satisfies Collection (__len__, __contains__, __iter__ returning itself): an Iterator[T] hint must stay shallow for it"""
+    def __contains__(self, x): return x in self._i[self.consumed:]
+NS['CollOneShot'] = CollOneShot
 class SizedStream:
     """Sized, NOT an Iterator (no __next__), NOT a Collection (no __contains__): __iter__ hands out its one stored iterator, so any
     iteration by a checker is observable as consumption"""
